@@ -746,9 +746,9 @@ theorem mkNonStatio_ok {a : StatioArgs} {cart : Bool} {bt nt : Nat} {tmin tmax :
 open Jinns.Holds in
 theorem holdsPoints_of_box (what : String) (mins maxs : List Rat) (cnt : Nat) (ps : List (List Rat))
     (hc : ps.length = cnt) (hb : ∀ p ∈ ps, inBox mins maxs p = true) :
-    holdsPoints what mins maxs cnt ps = none := by
+    c08Points what mins maxs cnt ps = none := by
   have e : c08InBox = inBox := rfl
-  unfold holdsPoints
+  unfold c08Points
   rw [if_neg (by simp [hc])]
   have hshape : (ps.all fun p => p.length == mins.length) = true := by
     rw [List.all_eq_true]; intro p hp
@@ -761,12 +761,38 @@ theorem holdsPoints_of_box (what : String) (mins maxs : List Rat) (cnt : Nat) (p
 open Jinns.Holds in
 theorem holdsTimes_of_interval (what : String) (tmin tmax : Rat) (cnt : Nat) (ts : List Rat)
     (hc : ts.length = cnt) (hb : ∀ t ∈ ts, inIcc tmin tmax t = true) :
-    holdsTimes what tmin tmax cnt ts = none := by
+    c08Times what tmin tmax cnt ts = none := by
   have e : c08InIcc = inIcc := rfl
-  unfold holdsTimes
+  unfold c08Times
   rw [if_neg (by simp [hc])]
   have : ts.all (c08InIcc tmin tmax) = true := by rw [e, List.all_eq_true]; exact hb
   simp [this]
+
+open Jinns.Holds in
+theorem c08First_eq_none (l : List (Option String)) (h : ∀ x ∈ l, x = none) : c08First l = none := by
+  induction l with
+  | nil => rfl
+  | cons a r ih =>
+    have ha := h a List.mem_cons_self
+    subst ha
+    exact ih (fun x hx => h x (List.mem_cons_of_mem _ hx))
+
+open Jinns.Holds in
+/-- **`Holds.C08` is true of the whole trace of the ODE model**: the store and every temporal batch
+    of every history, for every oracle sequence honouring the PRNG contract. -/
+theorem ode_history_holds (method : String) (tmin tmax : Rat) (nt bt : Nat) (o times : List Rat)
+    (hle : tmin ≤ tmax) (h : mkTimes method tmin tmax nt o = .ok times) (hb : bt ≤ nt)
+    (os : List (List Rat)) (hos : ∀ o ∈ os, o.Perm times) :
+    holdsC08Ode tmin tmax nt bt times (run times.length (init times bt) os).2 = none := by
+  have hk := mkTimes_ok method tmin tmax nt o times hle h
+  have hh := ode_history method tmin tmax nt bt o times hle h hb os hos
+  unfold holdsC08Ode
+  apply c08First_eq_none
+  intro x hx
+  simp only [List.mem_cons, List.mem_map] at hx
+  rcases hx with rfl | ⟨batch, hbatch, rfl⟩
+  · exact holdsTimes_of_interval _ _ _ _ _ hk.1 hk.2
+  · exact holdsTimes_of_interval _ _ _ _ _ (hh.2 batch hbatch).1 (hh.2 batch hbatch).2
 
 /-! ### non-vacuity -/
 
@@ -779,11 +805,26 @@ example : borderParams 2 (some 8) (some 3) = .error .valueError := by decide
 example : borderParams 3 none (some 1) = .error .typeError := by decide
 example : (gridStore (-2) 1 4).length = 4 := gridStore_length _ _ _
 example : ∀ v ∈ gridStore (-2) 1 4, inIcc (-2) 1 v = true := gridStore_mem _ _ _ (by norm_num)
+example : ∃ s, mkTimes "grid" 0 1 4 [] = .ok s := ⟨gridStore 0 1 4, by simp [mkTimes]⟩
+example : ∃ s, mkTimes "uniform" 0 1 2 [1/2, 1] = .ok s :=
+  ⟨[1/2, 1], by simp [mkTimes, uniformTimes, inIcc]; norm_num⟩
+/-- a concrete 2-D generator with a border goes through the constructor (hypothesis of
+    `statio_stores` / `statio_history`) -/
+example : ∃ s, mkStatio
+    { n := 2, nb := some 4, b := 1, bb := some 1, dim := 2, mins := [0, 0], maxs := [1, 2], method := "uniform" }
+    { omega := [[0, 1], [1, 2]], border := [[1], [2], [0], [1]] } = .ok s := by
+  refine ⟨{ args := { n := 2, nb := some 4, b := 1, bb := some 1, dim := 2, mins := [0, 0], maxs := [1, 2],
+                      method := "uniform" }, nb := some 4, bb := some 1, omega := [[0, 1], [1, 2]],
+            border := .facets (border2 [0, 0] [1, 2] 1 [[1], [2], [0], [1]]) }, ?_⟩
+  simp [mkStatio, borderParams, mkOmega, uniformOmega, mkBorder, border2Contract, inBox, inIcc, bind,
+    Except.bind, pure, Except.pure, List.range_succ]
 example : ∃ u, border2Contract [-1, 0] [1, 2] 1 u = true :=
   ⟨[[1], [2], [-1], [0]], by simp [border2Contract, inIcc, List.getD]⟩
 
 theorem sliceGuard_ok_iff (n b : Nat) : sliceGuard n b = .ok () ↔ b ≤ n := by
   unfold sliceGuard
-  by_cases h : n < b <;> simp [h] <;> omega
+  by_cases h : n < b
+  · simp [h]
+  · simp [h]; omega
 
 end Jinns.Domain
